@@ -1,7 +1,11 @@
 import StepModel.GenDeterm
 import StepModel.ExpressHashLemmas
 import StepModel.ExpressHashComplete
+import StepModel.ExpressHashExpand
 import StepModel.GenCollect
+import StepModel.GenSelectOrder
+import StepModel.GenPyModule
+import StepModel.GenPyModuleLemmas
 /-!
 # C12 — generators and the pretty printer are deterministic functions of their input
 
@@ -92,18 +96,33 @@ theorem C12_hash_order_filtered {π ρ : Type} (f : π → ρ) (kvs : List (Stri
   rw [ExpressHash.dictOrder_mapP, List.map_map]
   rfl
 
-/-- **Every dictionary iteration visits each entry exactly once** — for dictionaries below the load at which
-    `HASHexpand_table` is first called (fewer than `SEGMENT_SIZE * (MAX_LOAD_FACTOR + 1) - 1` = 1535 definitions; constants
-    regenerated): `DICTdo` yields a permutation of the entries `DICTdefine` kept (the first definition of each key), so no
-    entity / type / rule / function / interface item is skipped or emitted twice by any printer loop, and (with
-    `C12_hash_order_keys_only`) in an order that is a function of the key strings and their definition order only.
-    **Excluded**: dictionaries of 1535 and more entries (the symbol tables of the largest shipped APs), where the table is
-    expanded; for those completeness is tied only by the byte comparison of the scanner's output with the model (C17). -/
-theorem C12_iter_complete_partial {π : Type} (kvs : List (String × π))
-    (hsmall : kvs.length + 1 ≤ ExpressHash.segmentSize * (ExpressHash.maxLoadFactor + 1)) :
-    (ExpressHash.dictOrder kvs).Perm (ExpressHash.firsts kvs) ∧ ((ExpressHash.dictOrder kvs).map (·.1)).Nodup := by
-  have hp := ExpressHash.dictOrder_perm_firsts kvs hsmall
-  exact ⟨hp, (hp.map (·.1)).nodup_iff.mpr (ExpressHash.firsts_keys_nodup kvs)⟩
+/-- **Every dictionary iteration visits each entry exactly once, whatever expansions the table went through** — no bound on
+    the number of definitions (the symbol tables of the large shipped APs are expanded several times): `DICTdo` /
+    `HASHlist`, with or without a class filter (`DICTdo_type_init`), yields a permutation of the entries `DICTdefine` kept (the
+    first definition of each key) that the filter accepts, so no entity / type / rule / function / interface item is skipped
+    or emitted twice by any printer loop, and (with `C12_hash_order_keys_only`) in an order that is a function of the key strings
+    and their definition order only.  Via the linear-hashing invariant `ExpressHash.GInv` (every bucket = the kept entries
+    whose address under the CURRENT `p`, `maxp` it is; a split moves records of bucket `p` only, to `p` or `maxp + p`). -/
+theorem C12_iter_complete {π : Type} (kvs : List (String × π)) (sel : π → Bool) :
+    (ExpressHash.dictOrder kvs sel).Perm ((ExpressHash.firsts kvs).filter (fun e => sel e.2)) ∧
+    ((ExpressHash.dictOrder kvs sel).map (·.1)).Nodup := by
+  have hp := ExpressHash.dictOrder_perm_firsts_all kvs sel
+  refine ⟨hp, (hp.map (·.1)).nodup_iff.mpr ?_⟩
+  exact List.Nodup.sublist (List.Sublist.map _ List.filter_sublist) (ExpressHash.firsts_keys_nodup kvs)
+
+/-- **The walk of `HASHlist` stays inside `Directory[]` and reaches every allocated segment** — for the walk bound found in the
+    tree (regenerated): `SegmentCount` is incremented by every split (not per segment), the directory has `DIRECTORY_SIZE` slots.
+    With the clamped bound (fix C12-3) for every dictionary; with `he->i < SegmentCount` only for dictionaries of fewer than
+    `(MAX_LOAD_FACTOR + 1) * SEGMENT_SIZE * DIRECTORY_SIZE` = 393216 definitions (the k-th split happens at 1536·k keys).
+    **Excluded** under the unclamped bound: dictionaries of 393216 and more entries — there the real `HASHlist` reads
+    `Directory[256]`: reproduced (400000 entities: SIGSEGV in HASHlist ← DICTdo ← SCOPEresolve_subsupers; 380000: exit 0). -/
+theorem C12_iter_walk_in_bounds_partial {π : Type} (kvs : List (String × π))
+    (h : Generated.Hash.walkBound = .clampedToDirectory ∨
+         kvs.length < (ExpressHash.maxLoadFactor + 1) * ExpressHash.segmentSize * ExpressHash.directorySize) :
+    ExpressHash.walkSlots Generated.Hash.walkBound (ExpressHash.insertAll (ExpressHash.create : ExpressHash.Table π) kvs) ≤ ExpressHash.directorySize ∧
+    (ExpressHash.insertAll (ExpressHash.create : ExpressHash.Table π) kvs).buckets.size
+      ≤ ExpressHash.walkSlots Generated.Hash.walkBound (ExpressHash.insertAll (ExpressHash.create : ExpressHash.Table π) kvs) * ExpressHash.segmentSize :=
+  ExpressHash.walk_in_bounds _ kvs h
 
 /-! ## exppp: order of the item-wise USE / REFERENCE groups -/
 
@@ -185,6 +204,37 @@ theorem C12_alphabetical_order_walk_independent {α : Type} (lt : α → α → 
 /-- the hypotheses are satisfiable -/
 example : AlphaOrder.StrictTotal (fun a b : Nat => decide (a < b)) :=
   ⟨fun a => by simp, fun a b c h1 h2 => by simp at *; omega, fun a b hne => by simp; omega⟩
+
+/-! ## order of the select types in the generated C++ -/
+
+/-- The order in which exp2cxx emits the select classes and the typedef blocks of renamed selects of a schema (list level, not
+    only the set) is a function of the key strings of the schema's dictionary in definition order and of the item structure
+    only: under any two ambients (payload addresses) the select loop produces the same event list. -/
+theorem C12_select_emission_order_names_only (α β : Ambient) (base base' : Nat) (keys : List String) (isSel : String → Bool)
+    (G : String → Option SelOrder.Sel) (fuel : Nat) (st : SelOrder.St) :
+    (SelOrder.visitAll G fuel ((dictOrderUnder α base keys).filter isSel) st).out
+      = (SelOrder.visitAll G fuel ((dictOrderUnder β base' keys).filter isSel) st).out := by
+  rw [C12_hash_order_keys_only α β base base' keys]
+
+/-! ## order of the definitions in the generated Python module -/
+
+/-- The order in which exp2python defines the classes of the defined types and entities, the ENUMERATION / SELECT / aggregate
+    objects, the functions and the rules of a schema at module level (`PyModule.order`: rename-after-original scans, dictionary
+    walks per kind, `SCOPEget_entities_superclass_order`) is a function of the key strings of the schema's dictionary in
+    definition order and of the declarations only — `decls` stands for any way of reading kinds, heads and supertypes off the
+    dictionary walk: under any two ambients the module defines the same names in the same order. -/
+theorem C12_python_module_order_names_only (α β : Ambient) (base base' : Nat) (keys : List String) (fuel : Nat)
+    (decls : List String → List PyModule.T × List GenPy.Entity × List String × List String) :
+    (let d := decls (dictOrderUnder α base keys); PyModule.order d.1 d.2.1 (d.2.1.map (·.name)) fuel d.2.2.1 d.2.2.2)
+      = (let d := decls (dictOrderUnder β base' keys); PyModule.order d.1 d.2.1 (d.2.1.map (·.name)) fuel d.2.2.1 d.2.2.2) := by
+  rw [C12_hash_order_keys_only α β base base' keys]
+
+/-- … and that order is complete and duplicate-free for the defined types: whatever the dictionary order, the kinds and the
+    rename chains, the names a module defines before and after the entity classes are a permutation of the schema's defined
+    types — no type is skipped by the rename-after-original scans and the later dictionary walks, none is defined twice. -/
+theorem C12_python_types_defined_exactly_once (types : List PyModule.T) (hnd : (types.map (·.name)).Nodup) :
+    (PyModule.typesBeforeEntities types ++ PyModule.typesAfterEntities types).Perm (types.map (·.name)) :=
+  PyModule.types_order_perm types hnd
 
 /-! ## compstructs.cc -/
 
